@@ -38,6 +38,9 @@ def op_coq(o):
         return "(OClear %s)" % L.zlist(o[1])
     if k == "updcoords":
         return "(OUpdCoords %s %s %s %s)" % (L.zlist(o[1]), L.nat(o[2]), L.z(o[3]), L.z(o[4]))
+    if k == "updtbl":
+        return "(OUpdCoordsTbl %s %s %s %s)" % (L.zlist(o[1]), L.nat(o[2]),
+                                                L.lst(L.tup(L.z(a), L.z(b)) for a, b in o[3]), L.z(o[4]))
     if k == "updpay":
         return "(OUpdPayloads %s %s %s)" % (L.zlist(o[1]), L.nat(o[2]), L.z(o[3]))
     if k == "shaperef":
@@ -119,6 +122,11 @@ def gen_case(rng, kinds, maxlen=10, depths=(1, 2, 2, 3)):
         elif k == "updcoords":
             depth = rng.randint(0, max(0, n - 1 - len(path)))
             ops.append(["updcoords", path, depth, rng.choice([1, 1, -1]), rng.choice([0, 1, 3, 20])])
+        elif k == "updtbl":
+            depth = rng.randint(0, max(0, n - 1 - len(path)))
+            src = rng.sample(range(0, 9), rng.randint(1, 5))
+            dst = rng.sample(range(0, 12), len(src))          # distinct images (may collide with c+off: guarded)
+            ops.append(["updtbl", path, depth, [[a, b] for a, b in zip(src, dst)], rng.choice([0, 0, 20, 100])])
         elif k == "updpay":
             depth = n - 1 - len(path)
             ops.append(["updpay", path, depth, rng.choice([1, -1, 2, 5])])
@@ -135,7 +143,7 @@ def gen_case(rng, kinds, maxlen=10, depths=(1, 2, 2, 3)):
     return {"n": n, "d": d, "tree": tree, "ops": ops}
 
 
-ALL_KINDS = ["getref", "getref", "get", "append", "setitem", "setitem", "clear", "updcoords", "updpay",
+ALL_KINDS = ["getref", "getref", "get", "append", "setitem", "setitem", "clear", "updcoords", "updtbl", "updtbl", "updpay",
              "shaperef", "getpos", "getposref", "getsp", "getrefsp"]
 ACCESS_KINDS = ["getref", "getref", "getref", "get", "get", "getpos", "getposref", "getsp", "getrefsp"]
 
@@ -293,6 +301,22 @@ def do_op(T, n, o):
         if not (len(path) + depth < n and sg in (1, -1)) or f is None:
             return [2]
         f.updateCoords(lambda i, c, p: sg * c + kk, depth=depth)
+        return [0, []]
+    if k == "updtbl":
+        depth, tbl, off = o[2], dict((a, b) for a, b in o[3]), o[4]
+        if not (len(path) + depth < n) or f is None:
+            return [2]
+        fn = lambda c: tbl.get(c, c + off)
+
+        def distinct(g, d):
+            from fibertree import Fiber
+            if d == 0:
+                im = [fn(c) for c in g.coords]
+                return len(set(im)) == len(im)
+            return all(distinct(p, d - 1) for p in g.payloads if isinstance(p, Fiber))
+        if not distinct(f, depth):
+            return [2]     # outside the documented domain ("unique not checked")
+        f.updateCoords(lambda i, c, p: fn(c), depth=depth)
         return [0, []]
     if k == "updpay":
         depth, kk = o[2], o[3]
